@@ -32,18 +32,19 @@ assert rc == 0, o
 try:
     (wt / "_out" / f"change{K}").mkdir(parents=True)
     shutil.copy(demo, wt / "_out" / f"change{K}" / "demo.py")
-    rc0, o0 = sh(f"{PY} _out/change{K}/demo.py", cwd=wt, timeout=1800)
+    wenv = dict(os.environ, PYTHONPATH=str(wt))
+    rc0, o0 = sh(f"{PY} _out/change{K}/demo.py", cwd=wt, env=wenv, timeout=1800)
     meta["demo_pristine"] = {"rc": rc0, "tail": o0.strip().splitlines()[-3:]}
     rc, o = sh(f"git apply {patch}", cwd=wt)
     meta["patch_applies"] = rc == 0
     if rc != 0:
         meta["apply_error"] = o[-500:]
     else:
-        rc1, o1 = sh(f"{PY} _out/change{K}/demo.py", cwd=wt, timeout=1800)
+        rc1, o1 = sh(f"{PY} _out/change{K}/demo.py", cwd=wt, env=wenv, timeout=1800)
         meta["demo_patched"] = {"rc": rc1, "tail": o1.strip().splitlines()[-3:]}
         if run_suite:
             t = time.time()
-            rc2, o2 = sh(f"{PY} -m pytest -q -p no:cacheprovider --timeout=900 -n 8 tests", cwd=wt, timeout=7200)
+            rc2, o2 = sh(f"{PY} -m pytest -q -p no:cacheprovider --timeout=900 -n 8 tests", cwd=wt, env=wenv, timeout=7200)
             last = [l for l in o2.strip().splitlines() if " passed" in l or " failed" in l or "error" in l.lower()][-3:]
             meta["suite_patched"] = {"rc": rc2, "summary": last, "wall_s": round(time.time() - t)}
 finally:
